@@ -110,10 +110,32 @@ def anchorless_allowed(stmts, inputs, optimize: bool) -> set:
     # statement consumes is not exported under its own name)
     subs: dict[str, set] = {}
 
+    # `cond : value` with a condition made of constants only is decided at compile time: the name is
+    # then the value itself (an alias) or a constant, like a name declared that way directly
+    try:
+        it_ = lang.Interp(stmts)
+        env_ = it_.run({i["name"]: i["init"] for i in inputs}, {})
+    except lang.RefError:
+        it_, env_ = None, {}
+
+    def canon(e):
+        """e without projections onto the type the value already has (no combinator, an alias)."""
+        if not isinstance(e, list) or not e or not isinstance(e[0], str):
+            return e
+        e2 = [e[0]] + [canon(x) if isinstance(x, list) else x for x in e[1:]]
+        if e2[0] == "proj" and it_ is not None:
+            try:
+                v = it_.ev(e[1], env_)
+                if isinstance(v, lang.Sig) and v.type == e[2]:
+                    return e2[1]
+            except Exception:
+                pass
+        return e2
+
     def collect(e, acc):
         if isinstance(e, list) and e and isinstance(e[0], str):
             if e[0] in ("bin", "neg", "not", "proj", "projt", "sel"):
-                acc.add(lang.pexpr(e))
+                acc.add(lang.pexpr(canon(e)))
             for x in e[1:]:
                 if isinstance(x, list):
                     collect(x, acc)
@@ -125,14 +147,6 @@ def anchorless_allowed(stmts, inputs, optimize: bool) -> set:
                 if isinstance(x, list):
                     collect(x, acc)
             subs[s0[2]] = acc
-    # `cond : value` with a condition made of constants only is decided at compile time: the name is
-    # then the value itself (an alias) or a constant, like a name declared that way directly
-    try:
-        it_ = lang.Interp(stmts)
-        env_ = it_.run({i["name"]: i["init"] for i in inputs}, {})
-    except lang.RefError:
-        it_, env_ = None, {}
-
     def eff(e) -> set:
         """Run-time names e really depends on once selections with constant conditions are decided."""
         if not isinstance(e, list) or not e:
@@ -181,7 +195,7 @@ def anchorless_allowed(stmts, inputs, optimize: bool) -> set:
             dyn.add(name)
             if ex[0] == "sel" and decided_alias(ex):
                 ok.add(name)      # decided selection: an alias of its value
-        key = lang.pexpr(ex)
+        key = lang.pexpr(canon(ex))
         if optimize and key in seen_exprs:
             ok.add(name)          # CSE duplicate of an earlier declaration
         if optimize and any(key in v for n2, v in subs.items() if n2 != name):
@@ -272,9 +286,14 @@ def run_case(case: dict) -> dict:
         if sites:
             probe(res, "crosstalk_site_present")
             if "crosstalk" in (case.get("exclude") or []):
-                res["status"] = "excluded"
-                res["excluded_by"] = "crosstalk"
-                return res
+                from ..static_trigger import crosstalk_possible
+
+                if crosstalk_possible(stmts, case["inputs"]):
+                    res["status"] = "excluded"
+                    res["excluded_by"] = "crosstalk"
+                    return res
+                # the structure without a program shape that explains it is judged
+                probe(res, "crosstalk_structure_without_static_trigger")
         noanchor_ok = anchorless_allowed(stmts, case["inputs"], case["options"].get("optimize", True))
         bound = settle_bound(w)
         seen: list[dict] = []
